@@ -9,6 +9,9 @@ use vharness::gen::{self, Vals};
 use vharness::proto::{fb, ff, ffs, fmt_csc, fus};
 use vharness::*;
 
+#[path = "c16_dense.rs"]
+mod dense;
+
 type Dense = Vec<Vec<f64>>;
 
 fn resp(out: &str) -> Option<Req> {
@@ -1453,6 +1456,9 @@ fn channels() -> Vec<Channel> {
         ch!("vec.scalarop", e, run_v_scalarop, Some(oracle_v_elementwise), "VectorMath::scalarop", "Vec.scalarop / C16.vec_scalarop_spec"),
         ch!("vec.scalarop_from", e, run_v_scalarop_from, Some(oracle_v_elementwise), "VectorMath::scalarop_from", "Vec.scalaropFrom / C16.vec_scalaropFrom_spec"),
     ]
+    .into_iter()
+    .chain(dense::channels())
+    .collect()
 }
 
 // ---------------------------------------------------------------- generators
@@ -2113,6 +2119,7 @@ invperm / sortperm / findmax / position_all (crate-private; invperm in C12, the 
     for _ in 0..s.budget(200, 5000) {
         vec_cases(s);
     }
+    dense::generate(s);
 }
 
 fn main() {
